@@ -1,4 +1,4 @@
-import AaVerif.Aa.Resolve
+import AaVerif.Aa.ResolveLemmas
 /-!
 # C13 — variable resolution is plain substitution and keeps the rest of the preamble
 
@@ -60,6 +60,21 @@ theorem C13_preamble_kept : ∀ (pre : List Rule) (seen : List (List Char)) (out
       simp only [hv', Bool.false_eq_true, if_false] at h
       have := C13_preamble_kept rs _ _ res h
       rw [this]; simp [List.filter_append, List.filter_cons, hn]
+
+/-- **Every variable reference is replaced.** For every preamble (of well-shaped rules), every
+attachment list and every amount of fuel: when `Resolve` succeeds, no `@{` is left in the value of
+any variable of the resolved preamble nor in any resolved attachment. (A successful run on a value
+with a dangling `@{` that is not a reference is impossible: that is `invalidReference`.) -/
+theorem C13_no_reference_left (fuel : Nat) (pre : List Rule) (att : List (List Char)) (pre' : List Rule)
+    (att' : List (List Char)) (hs : ∀ r ∈ pre, VarShaped r) (h : resolve fuel pre att = .ok (pre', att')) :
+    (∀ r ∈ pre', isVar r = true → ∀ v ∈ vValues r, isInfixB tokOpen v = false) ∧
+    (∀ a ∈ att', isInfixB tokOpen a = false) :=
+  resolve_noRef fuel pre att pre' att' hs h
+
+/-- … and for a single value, whatever the variable table -/
+theorem C13_value_fully_expanded (vars : List Rule) (fuel : Nat) (input : List Char) (out : List (List Char))
+    (h : resolveValues vars fuel input = .ok out) : ∀ o ∈ out, isInfixB tokOpen o = false :=
+  resolveValues_noRef vars fuel input out h
 
 /-- a second `=` definition of a variable is reported, not silently merged -/
 theorem C13_second_definition_is_error (r : Rule) (rs : List Rule) (seen : List (List Char)) (out : List Rule)
